@@ -80,6 +80,17 @@ class Mutator:
         if not c:
             return None
         d, p = self.r.choice(c)
+        # narrower: an unconnected bit goes (by the single or by the bulk call); wider: a bit is added
+        def free(d2, ip):
+            return ip.wire is None and self.hd(ip) is not None and all(
+                i.pins[ip].wire is None for i in d2.references if ip in i.pins)
+        narrow = [(d2, p2, ip) for d2, p2 in c if len(p2.pins) >= 3 for ip in p2.pins if free(d2, ip)]
+        if narrow and self.r.random() < 0.5:
+            d2, p2, ip = self.r.choice(narrow)
+            if self.r.random() < 0.6:
+                return [{"op": "remove_pins_from", "on": self.hd(p2), "xs": [self.hd(ip)],
+                         "as_set": self.r.choice([False, True])}]
+            return [{"op": "remove_pin", "on": self.hd(p2), "x": self.hd(ip)}]
         return [{"op": "create_pin", "on": self.hd(p)}]
 
     def m_port_arrayness(self):
